@@ -22,6 +22,7 @@ package trie
 
 import (
 	"fmt"
+	"os"
 	"sort"
 	"strings"
 
@@ -192,6 +193,11 @@ func runSweep(v *variant, hashed, plain *builtTries, s pStep, first *felt.Felt, 
 	for _, c := range s.Claims {
 		counts["sweep-claims"]++
 		counts["sweep-"+c.M]++
+		// the claims that re-insert nothing but boundary leaves left in place by unset (no insert re-creates a node):
+		// only the dirty marks of unsetInternal / unset stand between a cached hash and the verdict
+		if s.Lc == "leaf-under-bin" && (c.M == "omit-all-but-last" || (c.M == "omit-interior-all" && s.Fc == "leaf-under-bin")) {
+			counts["sweep-claims-of-kept-boundary-leaves-only"]++
+		}
 		for _, p := range provs {
 			pname := "direct"
 			if p != nil {
@@ -431,6 +437,8 @@ func judgeRTamper(s pStep, rv rangeVerdict, counts map[string]int, report stepRe
 			counts["rtamper-model-differs"]++
 			if op == "none" && !rv.panicked() {
 				report("range-proof-trie2:verify-differs-from-model:"+a.Case+":"+a.M, "the real VerifyRangeProof outcome on an honest proof differs from RangeProof.tla's transcription ("+desc+"): "+rv.raw, s.Mv, rv.class())
+			} else if os.Getenv("VH_DEBUG_TAMPER") != "" {
+				report("debug:tampered-differs-from-model:"+a.Case+":"+op+":"+mode, desc+": "+rv.raw, s.Mv, rv.class())
 			}
 		}
 	}
